@@ -67,7 +67,7 @@ mod git { pub mod repository {
                 }
                 "rev-parse" if a.len() == 2 => {
                     if let Some(gb) = &g.garbage { return Ok(Output { stdout: gb.clone() }); }
-                    if a[1].starts_with('-') && a[1].len() > 1 { return Ok(Output { stdout: format!("{}\n", a[1]).into_bytes() }); }     // real `git rev-parse --ff` echoes the option
+                    if a[1].starts_with('-') { return Ok(Output { stdout: format!("{}\n", a[1]).into_bytes() }); }     // real `git rev-parse --ff` / `git rev-parse -` echo the argument
                     g.resolve(a[1]).map(|i| Output { stdout: format!("{}\n", sha(i)).into_bytes() }).ok_or(GitAiError::Generic("unknown revision".into()))
                 }
                 _ => Err(GitAiError::Generic("unexpected git command".into())),
@@ -205,7 +205,7 @@ fn chk_garbage(c: &mut Ctx, bytes: &[u8]) {
 const VALUE_OPTS: [&str; 6] = ["-m", "--mainline", "--strategy", "-X", "--strategy-option", "--cleanup"];
 /// the history of the parse checks: s00 - s01 - s02 (main, also the previous branch "@{-1}") - s03 - s04 - s05 (feat); a branch named
 /// `ours` at s01, one named `skip` at s00 and one named `continue` at s04 (legal branch names).  "-" itself is NOT a ref: git only
-/// understands it as shorthand on the cherry-pick command line, `git rev-parse -` fails.
+/// understands it as shorthand on the cherry-pick command line; `git rev-parse -` just echoes "-" (as it echoes any option).
 fn parse_model() -> Model {
     let mut g = Model::default(); let mut t = g.commit(&[]); for _ in 1..6 { t = g.commit(&[t]); }
     for (n, i) in [("main", 2usize), ("feat", 5), ("ours", 1), ("skip", 0), ("continue", 4), ("@{-1}", 2)] { g.refs.insert(n.to_string(), i); }
